@@ -83,10 +83,17 @@ public:
     return utf32chars.size();
   }
 
+  // The number of columns a character takes.  mk_wcwidth answers -1 for
+  // control characters; added to a std::size_t that would wrap around.
+  static std::size_t char_width(boost::uint32_t ch) {
+    int w = mk_wcwidth(ch);
+    return w < 0 ? 0 : static_cast<std::size_t>(w);
+  }
+
   std::size_t width() const {
     std::size_t width = 0;
     foreach (const boost::uint32_t& ch, utf32chars) {
-      width += mk_wcwidth(ch);
+      width += char_width(ch);
     }
     return width;
   }
@@ -126,7 +133,7 @@ public:
     std::size_t begin_idx = 0, end_idx = 0;
     std::size_t head = 0, tail = 0;
     for (std::size_t idx = 0; idx < this_len; ++idx) {
-      std::size_t w = mk_wcwidth(utf32chars[idx]);
+      std::size_t w = char_width(utf32chars[idx]);
 
       if (pos < begin) {
         if (pos + w >= begin) {
